@@ -504,6 +504,11 @@ func GenPermConfig(t *rapid.T, clients []string, wallets []string, accounts []st
 		n := rapid.IntRange(1, 5).Draw(t, "nentries")
 		for i := 0; i < n; i++ {
 			e := &PermEntry{Wallet: GenTopPat(t, 2, wallets), Ops: GenOps(t, focus)}
+			if prev := c.Clients[cl]; len(prev) > 0 && rapid.IntRange(0, 9).Draw(t, "reuse_wallet") < 3 {
+				// several entries for one wallet expression (with different account patterns) are
+				// what real configurations look like
+				e.Wallet = prev[rapid.IntRange(0, len(prev)-1).Draw(t, "reuse_from")].Wallet
+			}
 			if rapid.IntRange(0, 9).Draw(t, "has_account") < 7 {
 				e.Account = GenTopPat(t, 2, accounts)
 			}
